@@ -131,6 +131,7 @@ var corpus = [][]string{
 	4: { // js
 		"var a = 1, b = /re/g.test(x) ? a/2 : `t${a}l`;", "function f(a,b=1,...c){ if(a) return b; else for(let i of c) yield i }", "class A extends B { #p = 1; static m(){ super.m() } get x(){return this.#p} }",
 		"async () => { await x; label: while(1){ break label } }", "a = b\n++c; x = {y, [z]: 1, ...w}; try{}catch{}finally{}", "import a, {b as c} from 'm'; export default function(){}", "if (a) b; else c\nswitch(x){case 1: default:}", "x = a ?? b?.c?.[d]; 0x1F + 1_000n - .5e-3", "{\"a\":1}", "[1,\"x\",{\"y\":null}]",
+		"import(\"b.js\").then(f)", "import('x'); import.meta.url; x = import(y)", "if (a) import('m'); else new.target", "yield\nimport('z')\nawait w",
 		"while(a){b}", "do x; while(y)", "with(a){b=c}", "with (Math) x = cos(PI)", "debugger; throw new Error('e')", "for(var i=0;i<1;i++){}", "a=>{ let x = function*(){}; new.target }",
 		"/*! license */\n/*! second */\nvar été = 1; /*! third */\nété++", "/*! bang */ x = 1\n/*! bang2 */ y = 2",
 		"/*! a */", "/*! one */ f()", "/*! 1 */ /*! 2 */ /*! 3 */ /*! 4 */ a; b", "x = 1 /*! trailing */", "/*! c1 */\n/*! c2 */\n/*! c3 */\nlet q = {a: 1}", "function g(){ /*! inner */ return 1 }\n/*! outer */", "var ǩ = \"é\", 変数 = ǩ + 'ü'; /é+/gimsuy.test(変数)", "x = /[/]\\//u; y = a /é/ g; z = `a${`b${c}`}`", "// line\n/* block\n more */\nlet π = 3.14, \\u0061b = 2\nconsole.log(π)",
@@ -161,8 +162,9 @@ var sharedEntitiesFive = map[string][]byte{"amp": []byte("&"), "hellip": []byte(
 var sharedRevEntities = map[byte][]byte{'\'': []byte("&#39;"), '"': []byte("&#34;")}
 
 type tr struct {
-	b    []byte
-	held [][]byte // slices the library handed out, kept by reference and re-read at the end
+	b     []byte
+	held  [][]byte // slices the library handed out, kept by reference and re-read at the end
+	spare [][]byte // empty ones that came with spare capacity
 }
 
 // Bytes finishes the transcript: every byte slice observed during the workload is read
@@ -177,7 +179,20 @@ func (t *tr) Bytes() []byte {
 		t.b = stdstrconv.AppendQuote(t.b, string(h))
 		t.b = append(t.b, '\n')
 	}
-	t.held = nil
+	// Finally this caller appends one byte to every slice it was handed (the Go idiom for
+	// extending a value). Where the slice has spare capacity that writes into whatever lies behind
+	// it - the caller's own input or memory made for this instance, harmless now that the workload
+	// is over - but never into memory that anybody else can see: a value that aliases a package
+	// table or a buffer shared between instances has to come with its capacity clipped.
+	for _, h := range t.held {
+		if cap(h) > len(h) {
+			_ = append(h, 0xA5)
+		}
+	}
+	for _, h := range t.spare {
+		_ = append(h, 0xA5)
+	}
+	t.held, t.spare = nil, nil
 	return t.b
 }
 
@@ -190,6 +205,8 @@ func (t *tr) add(tag string, a ...interface{}) {
 			t.b = stdstrconv.AppendQuote(t.b, string(v))
 			if len(v) > 0 && len(t.held) < 48 {
 				t.held = append(t.held, v)
+			} else if len(v) == 0 && cap(v) > 0 && len(t.spare) < 16 {
+				t.spare = append(t.spare, v) // an empty value with room behind it
 			}
 		case string:
 			t.b = append(t.b, v...)
@@ -746,6 +763,9 @@ func runWorkloadIn(in wlInput, scratch []byte, rec *memRec) (out []byte) {
 				}
 			}
 			t.add("lexeme", z.Lexeme(), len(z.Bytes()))
+			if bb := z.Bytes(); len(bb) < 200 {
+				t.add("bytes", bb)
+			}
 			z.Restore()
 		}
 		script(parse.NewInput(&yieldReader{data: d, chunk: 1 + in.opt%7}))
